@@ -1536,6 +1536,10 @@ package trzsz
 
 //@ # once the stop flag was seen nothing more is put on the wire
 //@ func trzszTransfer.sendData
+//@   # C04 (binary framing of protocol 1): the length announced in the #DATA header is the length of the
+//@   # ESCAPED chunk, and the chunk that follows is exactly that escaped chunk
+//@   before fmt.Sprintf assert [C04] asInt(p1[0]) == len(result_of("escapeData", 0, 0))
+//@   before trzszTransfer.writeAll#1 assert [C04] same(p0, result_of("escapeData", 0, 0))
 //@   ensures [C10] result_of("trzszTransfer.checkStop", 0, 0) != nil ==> r0 != nil && nothingSent()
 //@ end
 
